@@ -204,6 +204,36 @@ theorem pipe_eq_call (iter : Val → Option (List Val)) (f : FnVal) (a : Val) (a
     callPiped iter f a args gen = callPlain iter f ((a, false) :: args) gen := by
   simp [callPiped, callPlain, compileCall, packedIdxs, Nat.add_comm]
 
+/-- **pipe_method_eq_call.** `a -> m.f b…` (also through a longer chain `x.y.m.f`) performs exactly
+the call `m.f(a, b…)`: the piped value is the first argument and the method still receives its
+container as `self` — for every function/generator method, piped value and argument list. -/
+theorem pipe_method_eq_call (iter : Val → Option (List Val)) (f : FnVal) (m a : Val)
+    (args : List CallArg) (gen : Bool) :
+    callPipedInstance iter f m a args gen = callInstance iter f m ((a, false) :: args) gen := by
+  simp [callPipedInstance, callInstance, compileCall, packedIdxs, Nat.add_comm]
+
+example : (callPipedInstance elems { argCount := 2, optCount := 0, variadic := false, captures := [] }
+    (.map [(.str [116], .int 7)]) (.int 1) [(.int 2, false)]).toOption
+    = some [.map [(.str [116], .int 7)], .int 1, .int 2] := by rfl
+
+/-- **creation_layout.** The captures list of a function after creation (and after the commit of
+the assignment it is created in): the default values in order, then the captures in order — the
+function's own name, whose `Capture` is deferred until the commit, lands in slot
+`optional_arg_count + its capture index` like every other capture, and no default slot is touched by
+it. Holds for any number of defaults, captures and any position of the self reference. -/
+theorem creation_layout (defaults : List Val) (caps : List CapSrc) (fnVal : Val) :
+    createCaptures defaults caps fnVal = defaults ++ caps.map (CapSrc.value fnVal) := by
+  unfold createCaptures
+  have h1 := applyDefaultCaps_spec defaults [] caps.length
+  simp only [List.nil_append, List.length_nil] at h1
+  simp only [h1]
+  have h2 := applyCaptureOps_spec fnVal defaults caps [] (List.replicate caps.length Val.null) (by simp)
+  simpa using h2
+
+/-- two defaults, captures `x`, the function itself, `y`: the function sits in slot 2 + 1 -/
+example : createCaptures [.int 10, .int 20] [.val (.int 1), .self, .val (.int 3)] (.str [102])
+    = [.int 10, .int 20, .int 1, .str [102], .int 3] := by rfl
+
 /-- **call_spec.** End to end: a call built by `compile_call` (any form) binds the function to the
 argument list in which packed arguments are replaced by their elements; register 0 of the callee is
 the instance for `m.f(…)` and null otherwise; a piped value is the first argument. -/
